@@ -166,7 +166,8 @@ Proof.
   apply hs_get_fs_k. intros f. cbv zeta.
   apply hs_seq; [apply hs_mapM_; intros p _; apply fs_mkdir_hs|].
   apply hs_get_fs_k. intros f'. apply hs_ret.
-  apply (LDI_set_layer sk ld _ l H); [now rewrite (lm_get_name _ _ _ El)|apply find_layerstate_core].
+  apply (LDI_set_layer sk ld _ l H); [now rewrite (lm_get_name _ _ _ El)|].
+  rewrite find_layerstate_core. destruct (_ && _); reflexivity.
 Qed.
 
 Lemma map_opt_in {A B} (f : A -> option B) : forall l ys, map_opt f l = Some ys ->
@@ -193,18 +194,21 @@ Proof.
   intros H HF Hn. pose proof H as [Hs HW]. destruct (HF _ Hs) as [HA _]. unfold mount_one.
   destruct (lm_get (ld_map ld) name) as [l|] eqn:El; [|exfalso; exact (Hn _ Hs El)].
   apply hs_guard_k. intros _. cbv zeta.
-  apply hs_seq.
+  assert (Hml : mounts_ok l) by (apply HW; eapply lm_get_in; eauto).
+  eapply hs_bind with (Q := LDI sk).
   { destruct (l_base l) as [|b0 br] eqn:Eb; [now apply hs_ret|].
     destruct (get_mount _ _); [now apply hs_ret|].
     destruct (lm_get (ld_map ld) (b0 :: br)) as [bl|] eqn:Ebl.
-    - apply fs_mount_hs. reflexivity.
+    - apply hs_seq; [apply fs_mount_hs; reflexivity|].
+      eapply hs_weaken; [apply (Hrf c sk ld H)|]. intros ld' [H' _]. exact H'.
     - exfalso. apply (allreach_bres _ HA l); [eapply lm_get_in; eauto|rewrite Eb; discriminate|].
       rewrite Eb. now apply g_of_none. }
-  destruct (expand_config_mounts c (ld_map ld) l) as [xs|] eqn:Ex; [|apply hs_fail].
+  intros ldA HA'. clear H Hs HW HA El. 
+  destruct (expand_config_mounts c (ld_map ldA) l) as [xs|] eqn:Ex; [|apply hs_fail].
   assert (Hxs : forall x, In x xs -> nospace (x_fstype x) = true).
-  { eapply expand_mounts_fstype; [exact Ex|]. apply HW. eapply lm_get_in; eauto. }
+  { eapply expand_mounts_fstype; [exact Ex|exact Hml]. }
   eapply hs_bind with (Q := LDI sk).
-  { clear - H Hxs Hfsop Hmntop Hrf. revert ld H. induction xs as [|x r IH]; intros ld H.
+  { clear - HA' Hxs Hfsop Hmntop Hrf. revert ldA HA'. induction xs as [|x r IH]; intros ld H.
     - now apply hs_ret.
     - cbv beta iota fix.
       destruct (get_mount (pr_mounts (ld_probe ld)) (x_mount x)) as [mnt|].
@@ -395,4 +399,5 @@ Proof.
   - apply (W (fun ld => shake e c ld)). intros. eapply shake_hs; eauto with ttinst.
   - apply (W (fun ld => chroot_prepare e c ld a)). intros. eapply chroot_hs with (sk := sk); eauto with ttinst.
   - apply (W (fun ld => ret ld)). intros. now apply hs_ret.
+  - unfold bind, get_fs. destruct (open_trunc (w_fs (s_w s)) p); cbn; exact I.
 Qed.
